@@ -2111,6 +2111,12 @@ class Mailbox:
         for seq in self.sequences.keys():
             for msg_key in to_delete:
                 self.sequences[seq].discard(msg_key)
+
+        # Keep the .mh_sequences up to date so that it does not mention the
+        # removed messages (a later delivery may reuse their message keys.)
+        #
+        async with self.mh_sequences_lock, self.mailbox.lock_folder():
+            self.set_sequences_in_folder(self.sequences)
         self.num_recent = len(self.sequences["Recent"])
         await self.commit_to_db()
         self.optional_resync = False
